@@ -140,6 +140,9 @@ func NewReceiver(p2pHost host.Host, topicName string, options ...Option) (*Recei
 
 	if p2pHost != nil {
 		r.hostID = p2pHost.ID()
+	}
+	// Only read from pubsub if there is a subscription to read from.
+	if topicSub != nil {
 		watchCtx, cancelWatch := context.WithCancel(context.Background())
 		r.cancelWatch = cancelWatch
 		r.watchDone = make(chan struct{})
